@@ -1341,14 +1341,21 @@ func entriesOrEmpty(e []string) []string {
 func TestC10(t *testing.T) {
 	rng := rand.New(rand.NewSource(hx.Seed()))
 	out := hx.NewOut()
-	defer out.Close("dispatch: every method of both precompiles (13 state-changing incl. third-party / tx-origin argument variants, 4 views) x CALL/STATICCALL/DELEGATECALL/CALLCODE x governance switch lists set through the real MsgUpdateSwitchParams handler (none, single entries in every letter case, near misses, 2..7 entries with several entries for one precompile address and the matching one at any position) x allowance 0 / amount-1 / amount / amount+1 / large / 2^256-2 / 2^256-1; nested STATICCALL->CALL. histories: sequences of real signed transactions by EOAs directly, contracts, contracts acting for the user that called them (one and two frames deep): approveShares (boundary amounts incl. 2^256-1) / repeated transferFromShares / transferShares / delegate / undelegate / withdraw / cancelSendToExternal / increaseBridgeFee / views, under random call kinds and switch lists; model and real allowance, shares and pool compared after every step; portfolios of every non-caller (tx origin included) before/after. non-trivial = distinct (method, kind/route, switch class, outcome)")
+	defer out.Close("dispatch: every method of both precompiles (13 state-changing incl. third-party / tx-origin argument variants, 4 views) x CALL/STATICCALL/DELEGATECALL/CALLCODE x governance switch lists set through the real MsgUpdateSwitchParams handler (none, single entries in every letter case, near misses, 2..7 entries with several entries for one precompile address and the matching one at any position) x allowance 0 / amount-1 / amount / amount+1 / large / 2^256-2 / 2^256-1; nested STATICCALL->CALL. histories: sequences of real signed transactions by EOAs directly, contracts, contracts acting for the user that called them (one and two frames deep): approveShares (boundary amounts incl. 2^256-1) / repeated transferFromShares / transferShares / delegate / undelegate / withdraw / cancelSendToExternal / increaseBridgeFee / views, under random call kinds and switch lists; model and real allowance, shares and pool compared after every step; portfolios of every non-caller (tx origin included) before/after. tokens: crossChain with an ERC-20 token (coin-backed WFX, contract-owned TST) by EOAs directly, contracts, contracts one and two frames below the holder that called them, totals at allowance/balance -1/0/+1 and at what the TX ORIGIN could pay; ERC-20 balances and allowances to the precompile of every non-caller before/after, the direct caller's compared with the regenerated ERC-20 leg. non-trivial = distinct (method, kind/route, switch class, outcome)")
 	e := setup(t)
-	only := os.Getenv("VERIF_C10_PHASE") // debugging aid: "dispatch" or "history" runs one phase only
+	only := os.Getenv("VERIF_C10_PHASE") // debugging aid: "dispatch", "history" or "tokens" runs one phase only
+	if only == "tokens" {
+		phaseTokens(t, e, rng, out)
+		return
+	}
 	if only != "history" {
 		phaseDispatch(t, e, rng, out)
 		phaseMalformed(t, e, rng, out)
 	}
 	if only != "dispatch" {
 		phaseHistory(t, e, rng, out)
+	}
+	if only == "" {
+		phaseTokens(t, e, rng, out)
 	}
 }
